@@ -115,7 +115,7 @@ static int do_channel_col(ezc3d::c3d& c, int dFrames, int dSub, int names, bool 
   return 0;
 }
 static int do_rate(ezc3d::c3d& c, const char* g, float r) {
-  __vp_obs_u64("call.kind", 3);
+  __vp_obs_u64("call.kind", 3); __vp_obs_u64("arg.analog", g[0] == 'A'); __vp_obs_u64("arg.zero", r == 0.f);
   try { set_rate(c, g, r); } catch (...) { return classify(); }
   return 0;
 }
@@ -256,8 +256,8 @@ extern "C" int h_hist() {
 extern "C" int h_rates() {
   const int n = __vp_cfg("channels"), steps = __vp_cfg("steps");
   ezc3d::c3d c;
-  float pr = __vp_sym_f32("prate");
-  __vp_assume(pr >= 1.f && pr <= 2000.f);
+  float pr = 100.f;
+  if (__vp_cfg("free_point_rate")) { pr = __vp_sym_f32("prate"); __vp_assume(pr >= 1.f && pr <= 2000.f); }
   set_rate(c, "POINT", pr);
   for (int i = 0; i < n; ++i) c.analog(num("a", i));
   for (int k = 0; k < steps; ++k) {
